@@ -54,6 +54,7 @@ class Gen:
         self.skel: list[str] = []
         self.features: set = set()
         self.decl_needed: set = set()
+        self.clobbering_calls = 0
 
     def fresh(self, p="v"):
         self.n += 1
@@ -160,9 +161,9 @@ class Gen:
             else:
                 self.testop(ind, scope)
 
-    def launch(self, ind, scope):
+    def launch(self, ind, scope, acc=None):
         rng = self.rng
-        acc = rng.choice(list(self.accs))
+        acc = acc or rng.choice(list(self.accs))
         fields = self.accs[acc]
         self.budget -= 1
         self.launch_sites += 1
@@ -251,7 +252,13 @@ class Gen:
                 self.emit(ind + 1, f"{d} = arith.addi {ivc}, {base} : i32")
                 inner["i32"].append(d)
             self.features.add("iv-dependent")
+        clob_before = self.clobbering_calls
         self.block(ind + 1, inner, depth + 1, rng.randint(1, 4), True)
+        if self.clobbering_calls != clob_before and rng.random() < 0.85:
+            # the state weaver crashes (KeyError) on loop bodies that end in an unknown state; re-establish it
+            for acc in self.accs:
+                self.launch(ind + 1, inner, acc)
+            self.features.add("relaunch-after-clobber-in-loop")
         if carried:
             nxt = self.fresh()
             other = rng.choice(inner["i32"])
@@ -324,6 +331,8 @@ class Gen:
             attrs += ", accfg.effects = #accfg.effects<none>"
         elif kind == "full":
             attrs += ", accfg.effects = #accfg.effects<full>"
+        if kind != "none":
+            self.clobbering_calls += 1
         if rng.random() < 0.5:
             v = self.fresh()
             self.decl_needed.add("@ext1(i32) -> i32")
